@@ -283,6 +283,8 @@ type intTr struct {
 	divSk     map[*Term]*divDef // IDiv term -> definition
 	skDef     map[*Term]*divDef // skolem var -> definition
 	bvVars    map[*Term]*Term   // Int var -> BV var (for range constraints)
+	congHyps  map[string][]*Poly // modulus -> polynomials assumed congruent to 0
+	noElim    bool
 }
 
 var statModsDropped, statModsKept int64
@@ -290,7 +292,7 @@ var statModsDropped, statModsKept int64
 func newIntTranslator() *intTr {
 	return &intTr{lazyMemo: map[*Term]*Poly{}, canonMemo: map[*Term]*Poly{}, boolMemo: map[*Term]*Term{},
 		intMemo: map[*Term]*Poly{}, vbound: map[*Term]*big.Int{}, atomIv: map[*Term]ival{},
-		divSk: map[*Term]*divDef{}, skDef: map[*Term]*divDef{}, bvVars: map[*Term]*Term{}}
+		divSk: map[*Term]*divDef{}, skDef: map[*Term]*divDef{}, bvVars: map[*Term]*Term{}, congHyps: map[string][]*Poly{}}
 }
 
 // ivOf tightens the structural interval with the monomial-wise one.
@@ -874,6 +876,9 @@ func (tr *intTr) cmp0(p *Poly, op Op) *Term {
 
 // congruent0 builds  p ≡ 0 (mod m)  after reducing coefficients modulo m.
 func (tr *intTr) congruent0(p *Poly, m *big.Int) *Term {
+	if !tr.noElim {
+		p = tr.eliminate(p, m)
+	}
 	r := &Poly{ms: map[string]*pmono{}}
 	half := new(big.Int).Rsh(m, 1)
 	for k, mo := range p.ms {
@@ -956,10 +961,101 @@ func (tr *intTr) boolean(t *Term) *Term {
 	return r
 }
 
+func reduceCoefs(p *Poly, m *big.Int) *Poly {
+	r := &Poly{ms: map[string]*pmono{}}
+	half := new(big.Int).Rsh(m, 1)
+	for k, mo := range p.ms {
+		c := new(big.Int).Mod(mo.coef, m)
+		if c.Sign() == 0 {
+			continue
+		}
+		if c.Cmp(half) > 0 {
+			c.Sub(c, m)
+		}
+		r.ms[k] = &pmono{coef: c, atoms: mo.atoms}
+	}
+	return r
+}
+
+// eliminate uses assumed congruences H ≡ 0 (mod m) that contain a lone atom with coefficient ±1 to
+// substitute that atom in the goal polynomial (latest hypotheses first). Sound: g ≡ g[atom := R] (mod m).
+func (tr *intTr) eliminate(g *Poly, m *big.Int) *Poly {
+	hs := tr.congHyps[m.String()]
+	g = reduceCoefs(g, m)
+	for i := len(hs) - 1; i >= 0 && len(g.ms) > 0; i-- {
+		h := hs[i]
+		// choose the lone unit-coefficient atom of h with the largest id that occurs in g
+		var atom *Term
+		var sign int
+		for _, mo := range h.ms {
+			if len(mo.atoms) != 1 {
+				continue
+			}
+			if mo.coef.CmpAbs(big1) != 0 {
+				continue
+			}
+			a := mo.atoms[0]
+			occurs := false
+			for _, gm := range g.ms {
+				for _, x := range gm.atoms {
+					if x == a {
+						occurs = true
+					}
+				}
+			}
+			if !occurs {
+				continue
+			}
+			// the atom must not occur elsewhere in h
+			cnt := 0
+			for _, hm := range h.ms {
+				for _, x := range hm.atoms {
+					if x == a {
+						cnt++
+					}
+				}
+			}
+			if cnt != 1 {
+				continue
+			}
+			if atom == nil || a.id > atom.id {
+				atom, sign = a, mo.coef.Sign()
+			}
+		}
+		if atom == nil {
+			continue
+		}
+		// h = sign*atom + rest ≡ 0  =>  atom ≡ -sign*rest
+		rest := pSub(h, pScale(pAtom(atom, unk()), big.NewInt(int64(sign))))
+		repl := reduceCoefs(pScale(rest, big.NewInt(int64(-sign))), m)
+		ng := &Poly{ms: map[string]*pmono{}}
+		for _, gm := range g.ms {
+			e := 0
+			var others []*Term
+			for _, x := range gm.atoms {
+				if x == atom {
+					e++
+				} else {
+					others = append(others, x)
+				}
+			}
+			term := &Poly{ms: map[string]*pmono{monoKey(others): {coef: gm.coef, atoms: others}}}
+			for ; e > 0; e-- {
+				term = reduceCoefs(pMul(term, repl), m)
+			}
+			ng = pAddScaled(ng, term, big1)
+		}
+		g = reduceCoefs(ng, m)
+	}
+	g.iv = unk()
+	return g
+}
+
 // hyp translates a hypothesis conjunct; congruences "(x mod m) = 0" are skolemised to x = k*m.
 func (tr *intTr) hyp(t *Term) *Term {
 	if x, m, ok := isModZero(t); ok {
 		p := tr.integer(x)
+		tr.congHyps[m.String()] = append(tr.congHyps[m.String()], p)
 		k := Var("k!"+strconv.FormatInt(t.id, 36), IntSort)
 		return Eq(polyTerm(p), IMul(k, IntC(m)))
 	}
